@@ -184,6 +184,10 @@ func ToBytes(v any) ([]byte, error) {
 	case string:
 		return []byte(v), nil
 	case []byte:
+		if v == nil {
+			// a nil slice is an empty value, not a database NULL
+			return []byte{}, nil
+		}
 		return v, nil
 	}
 	return nil, ErrValueType
